@@ -265,6 +265,20 @@ Definition drop_compiles (c : catalog) (name : string) : bool :=
   let n := S (List.length (cat_tables c) + List.length (flat_map ct_fks (cat_tables c))) in
   nested_compile (n * n) c (delete_actions c name) [].
 
+(* ---------- UPDATE t SET col = … / INSERT INTO t under foreign_keys=ON ----------
+   An UPDATE needs foreign-key processing when [col] is a child column of one of t's foreign keys or is named among the
+   referenced columns of a foreign key that references t (from any table, t included).  Then the statement is prepared with
+   EVERY foreign key that references t resolved to a key of t ('foreign key mismatch - "b" referencing "t"' otherwise, also
+   for keys the update does not touch), and with the parents of t's own foreign keys over [col] looked up.
+   An INSERT INTO t always looks up the parents of t's foreign keys and resolves every foreign key that references t. *)
+Definition update_fk_ok (c : catalog) (t : ctable) (col : string) : bool :=
+  let refs := refs_to c (ct_name t) in
+  if (existsb (fun f => imem col (sf_cols f)) (ct_fks t) || existsb (fun cf => imem col (sf_refcols (snd cf))) refs)%bool
+  then (forallb (fun cf => fk_resolves c (snd cf)) refs
+        && child_writable c (mkCTable (ct_name t) (ct_cols t) (ct_autoinc t)
+                                      (filter (fun f => imem col (sf_cols f)) (ct_fks t)) (ct_checks t)))%bool
+  else true.
+
 Definition ren (old new : string) (l : list string) : list string := map (fun x => if ieq x old then new else x) l.
 
 (* ---------- exec ---------- *)
@@ -378,7 +392,8 @@ Definition exec (fk_on : bool) (c : catalog) (st : stmt) : result catalog engine
               | Some (SelExpr x _) => Err (ENoSuchColumn src x)
               | None =>
                   if negb (Nat.eqb (List.length cols) (List.length exprs)) then Err (EArity dst)
-                  else if (fk_on && negb (child_writable c d))%bool then Err (EForeignKey dst)
+                  else if (fk_on && negb (child_writable c d && forallb (fun cf => fk_resolves c (snd cf)) (refs_to c (ct_name d))))%bool
+                       then Err (EForeignKey dst)
                   else Ok c
               end
           end
@@ -391,13 +406,11 @@ Definition exec (fk_on : bool) (c : catalog) (st : stmt) : result catalog engine
           else if negb (value_resolves (ccol_names t) v) then Err (ENoSuchColumn table v)
           else match (match w with WNone => None | WIsNull x | WEqLit x _ => Some x end) with
                | Some x => if has_ccol x t then
-                             (* foreign_keys=ON: assigning a child key column prepares the parent lookup *)
-                             if (fk_on && negb (child_writable c (mkCTable (ct_name t) (ct_cols t) (ct_autoinc t)
-                                                   (filter (fun f => imem col (sf_cols f)) (ct_fks t)) (ct_checks t))))%bool
+                             (* foreign_keys=ON: see [update_fk_ok] *)
+                             if (fk_on && negb (update_fk_ok c t col))%bool
                              then Err (EForeignKey table) else Ok c
                            else Err (ENoSuchColumn table x)
-               | None => if (fk_on && negb (child_writable c (mkCTable (ct_name t) (ct_cols t) (ct_autoinc t)
-                                                   (filter (fun f => imem col (sf_cols f)) (ct_fks t)) (ct_checks t))))%bool
+               | None => if (fk_on && negb (update_fk_ok c t col))%bool
                          then Err (EForeignKey table) else Ok c
                end
       end
